@@ -47,6 +47,10 @@ class StrategyFamily(common.Family):
         'strategy': strat,
         'num_threads': rng.choice([1, 2, 2, 3, 4]),
         'shardable': rng.random() < 0.6,
+        # source kind: SequenceDataSource / ShardedIterable / plain iterable,
+        # optionally handed to the pipeline already sharded (i of k)
+        'src_kind': rng.choice(['seq', 'seq', 'iter', 'plain']),
+        'pre_shard': rng.choice([None, None, [0, 2], [1, 2], [2, 3]]),
         'cuts': cuts,
         'k': rng.choice([1, 2, 3, 4, 5]),
         'concurrent_shards': rng.random() < 0.6,
@@ -68,13 +72,24 @@ class StrategyFamily(common.Family):
       if o['op'] == 'sink':
         o['name'] = 'ref'
 
-    def source():
-      if cfg['shardable'] or strat == 'shards':
-        return pipes.sequence_source(spec)
-      return NonShardable(pipes.make_data(spec))
+    kind = cfg.get('src_kind', 'seq' if cfg['shardable'] else 'plain')
+    pre = cfg.get('pre_shard')
+    if strat == 'shards':
+      kind, pre = 'seq', None
 
-    # reference: sequential, fused, whole source
-    p_ref = pipes.build(ref_spec, data_source=pipes.sequence_source(spec))
+    def source():
+      if kind == 'plain':
+        return NonShardable(pipes.make_data(spec))
+      if kind == 'iter':
+        ds = io.ShardedIterable(pipes.make_data(spec))
+      else:
+        ds = pipes.sequence_source(spec)
+      if pre:
+        ds = ds.shard(pre[0], pre[1])
+      return ds
+
+    # reference: sequential, fused, same (possibly pre-sharded) source
+    p_ref = pipes.build(ref_spec, data_source=source())
     it = p_ref.make().iterate()
     ref_out = [pipes.batch_key(b) for b in it]
     ref_res = pipes.norm_result(it.agg_result)
@@ -220,6 +235,8 @@ class StrategyFamily(common.Family):
       c = copy.deepcopy(cfg); c['num_threads'] -= 1; yield c
     if cfg['k'] > 1:
       c = copy.deepcopy(cfg); c['k'] -= 1; yield c
+    if cfg.get('pre_shard'):
+      c = copy.deepcopy(cfg); c['pre_shard'] = None; yield c
     if len(cfg['cuts']) > 1:
       c = copy.deepcopy(cfg); c['cuts'] = cfg['cuts'][:1]; yield c
 
